@@ -1428,6 +1428,12 @@ def str_method(I, recv, name, args, kwargs, node):
                 # a multi-character pattern could straddle two parts of a composite string
                 if old is not None and len(old) > 1 and not single:
                     return t
+                # ... and deleting it (or replacing it by characters of its own) can splice a new
+                # occurrence together: "**//".replace("*/", "") == "*/"
+                if old is not None and len(old) > 1 and (new == "" or set(new) & set(old)):
+                    return t
+                if old is None and new == "":
+                    return t
                 return Text(t.name, t.removed | {old_tag}, t.stripped)
             return I.mkstr(_map_text(I, sv, on_text, (lambda text: text.replace(old, new)) if old is not None else (lambda text: text)))
         if name in ("upper", "lower", "title", "capitalize"):
